@@ -231,6 +231,8 @@ pub enum Op {
     RemoveMembers { sender: u64, id: u32, members: Vec<u64> },
     /// observe: static queries, then the clock-dependent queries at every boundary instant
     Sweep,
+    /// one Members page exactly as asked (start_after / limit as given, None = omitted)
+    Page { id: u32, start_after: Option<u64>, limit: Option<u32> },
 }
 impl Op {
     pub fn kind_name(&self) -> &'static str {
@@ -242,6 +244,7 @@ impl Op {
             Op::AddMembers { .. } => "add_members",
             Op::RemoveMembers { .. } => "remove_members",
             Op::Sweep => "sweep",
+            Op::Page { .. } => "members_page",
         }
     }
 }
@@ -424,7 +427,7 @@ impl World {
     pub fn op_json(&self, op: &Op) -> Option<(u64, Value)> {
         let k = self.kind;
         Some(match op {
-            Op::Time(_) | Op::Sweep => return None,
+            Op::Time(_) | Op::Sweep | Op::Page { .. } => return None,
             Op::AddStage { sender, st, members } => {
                 (*sender, json!({"add_stage": {"stage": st.json(k), "members": members_json(k, members)}}))
             }
@@ -456,7 +459,7 @@ impl World {
     pub fn op_coq(&self, op: &Op) -> String {
         let k = self.kind;
         match op {
-            Op::Time(_) | Op::Sweep => unreachable!(),
+            Op::Time(_) | Op::Sweep | Op::Page { .. } => unreachable!(),
             Op::AddStage { sender, st, members } => format!("(AddStage {} {} {})", sender, st.coq(), coq_members(k, members)),
             Op::RemoveStage { sender, id } => format!("(RemoveStage {} {})", sender, id),
             Op::Update { sender, id, name, start, end, price, pal, mcl } => format!(
@@ -510,6 +513,35 @@ impl World {
         };
         (v["stage_id"].as_u64().unwrap(), St::parse(&v["stage"]), extra)
     }
+    fn parse_members(v: &Value) -> Vec<(u64, u64)> {
+        v["members"]
+            .as_array()
+            .unwrap()
+            .iter()
+            .map(|m| match m {
+                Value::String(s) => (addr_id(s), 1),
+                o => (addr_id(o["address"].as_str().unwrap()), o["mint_count"].as_u64().unwrap()),
+            })
+            .collect()
+    }
+    /// one Members page as asked
+    pub fn members_page(&mut self, id: u32, start_after: Option<u64>, limit: Option<u32>) -> Result<Vec<(u64, u64)>, String> {
+        self.q(json!({"members": {"stage_id": id, "start_after": start_after.map(addr_str), "limit": limit}})).map(|v| Self::parse_members(&v))
+    }
+    /// every entry stored under a stage id: pages of 100 walked until an empty page
+    pub fn members_all(&mut self, id: u32) -> Result<Vec<(u64, u64)>, String> {
+        let mut all: Vec<(u64, u64)> = vec![];
+        let mut start: Option<u64> = None;
+        loop {
+            let page = self.members_page(id, start, Some(100))?;
+            if page.is_empty() {
+                return Ok(all);
+            }
+            start = Some(page.last().unwrap().0);
+            all.extend(page);
+            assert!(all.len() < 100_000, "Members pagination does not terminate");
+        }
+    }
     pub fn static_obs(&mut self) -> StaticObs {
         let stages = match self.q(json!({"stages": {}})) {
             Ok(v) => Ok(v["stages"].as_array().unwrap().clone().iter().map(|x| self.parse_resp(x)).collect()),
@@ -522,18 +554,7 @@ impl World {
                 Ok(v) => Ok(self.parse_resp(&v)),
                 Err(e) => Err(e),
             });
-            members_k.push(match self.q(json!({"members": {"stage_id": id, "limit": 100}})) {
-                Ok(v) => Ok(v["members"]
-                    .as_array()
-                    .unwrap()
-                    .iter()
-                    .map(|m| match m {
-                        Value::String(s) => (addr_id(s), 1),
-                        o => (addr_id(o["address"].as_str().unwrap()), o["mint_count"].as_u64().unwrap()),
-                    })
-                    .collect()),
-                Err(e) => Err(e),
-            });
+            members_k.push(self.members_all(id));
         }
         StaticObs { stages, stage_k, members_k }
     }
